@@ -3,3 +3,11 @@ chk('C02', 'exploration',
     'All 1312 (version, level, mask) triples are enumerated exhaustively with several data contents each; automatic choices are sampled with Hypothesis. Geometry, function patterns, both format copies, both version copies and all metadata are compared with values computed from the standard (BCH/Golay from the polynomials, Annex E positions generated). Exhaustive over the triple space, sampled over data.',
     'Trusted: vlib/qrref.py (validated against the module grids printed in ISO/IEC 18004 and by re-building them bit-exactly); sampled data only.',
     'exhaustive enumeration + Hypothesis search against an ISO 18004 reference model', 'DESIGN.md 4/C02')
+chk('C01', 'exploration',
+    'Generated contents x option combinations are encoded by segno and read back by an independent ISO 18004 reference decoder; the payload bytes must equal the bytes the statement prescribes (policy model) and ECI headers are compared with a table typed in from the AIM register. Sampled: it shows absence of round-trip defects only on the generated cases (class distribution in the evidence).',
+    'Trusted: vlib/qrref.py decoder (validated against the ISO figures), Python codecs, typed-in ECI table. Inputs are sampled, not exhaustive.',
+    'Hypothesis property-based round trip through an independent reference decoder', 'DESIGN.md 4/C01')
+chk('C03', 'fault_enumeration',
+    'All 168 (version, level) block layouts are enumerated; for each, zero syndromes over the re-derived Table 9 de-interleaving are required for several data contents, and injected codeword errors (max weight per block, random, bursts on the matrix; all single-codeword errors at every position) must be corrected by an independent Berlekamp-Massey decoder to the identical data bits. Error patterns of weight >= 2 are sampled.',
+    'Trusted: GF(256)/RS implementation in vlib/qrref.py (self-tested), Table 9 rows typed in from the standard. Multi-error patterns sampled; single errors enumerated (<= v10 quick, all thorough).',
+    'fault injection into generated symbols + syndrome check / RS decoding by a reference model', 'DESIGN.md 4/C03')
